@@ -829,6 +829,7 @@ func (g *Gen) scopeAt(b *ssa.BasicBlock, edge *ssa.BasicBlock, st *State) map[st
 	for i := len(chain) - 1; i >= 0; i-- {
 		g.scopeBlock(chain[i], vars, st)
 	}
+	g.dropStaleNames(b, edge, chain, vars)
 	for _, in := range b.Instrs {
 		phi, ok := in.(*ssa.Phi)
 		if !ok {
@@ -876,6 +877,66 @@ func (g *Gen) scopeAt(b *ssa.BasicBlock, edge *ssa.BasicBlock, st *State) map[st
 		}
 	}
 	return vars
+}
+
+// dropStaleNames: a source variable that is dead at a loop head gets no phi there, so the
+// dominating definition found by the chain walk is the value from BEFORE the loop even though
+// the loop assigns the variable.  A clause naming it would be assumed about the stale value at
+// the head and asserted about the fresh one on the back edge (unsound).  Such a name is removed
+// from the scope (the clause then fails as unevaluable) at every point inside the loop whose
+// visible definition lies outside the loop while the loop holds a different definition.
+func (g *Gen) dropStaleNames(b, edge *ssa.BasicBlock, chain []*ssa.BasicBlock, vars map[string]Val) {
+	at := b
+	if edge != nil {
+		at = edge
+	}
+	type def struct {
+		v  ssa.Value
+		bb *ssa.BasicBlock
+	}
+	last := map[string]def{}
+	for i := len(chain) - 1; i >= 0; i-- {
+		for _, in := range chain[i].Instrs {
+			switch x := in.(type) {
+			case *ssa.Phi:
+				if x.Comment != "" {
+					last[x.Comment] = def{x, chain[i]}
+				}
+			case *ssa.DebugRef:
+				if x.IsAddr {
+					continue
+				}
+				if obj, ok := x.Object().(*types.Var); ok && obj != nil && !obj.IsField() {
+					last[obj.Name()] = def{x.X, chain[i]}
+				}
+			}
+		}
+	}
+	for _, li := range g.loops {
+		if !li.blocks[at] {
+			continue
+		}
+		for bb := range li.blocks {
+			for _, in := range bb.Instrs {
+				x, ok := in.(*ssa.DebugRef)
+				if !ok || x.IsAddr {
+					continue
+				}
+				obj, ok := x.Object().(*types.Var)
+				if !ok || obj == nil || obj.IsField() {
+					continue
+				}
+				name := obj.Name()
+				d, seen := last[name]
+				cur, bound := vars[name]
+				if !seen || !bound || cur.Lazy || cur.Bltn == "localvar" || li.blocks[d.bb] || d.v == x.X {
+					continue
+				}
+				delete(vars, name)
+				g.staleDropped = append(g.staleDropped, fmt.Sprintf("%s (loop %d)", name, li.ord))
+			}
+		}
+	}
 }
 
 // lazyCell: a pointer to a variable cell, named in contracts by the variable it holds.
